@@ -27,7 +27,8 @@ def trees_case(ctx, idx, rng):
         ist = int(rng.integers(0, L)) if same_start is None else same_start
         pz = float(rng.choice([0.0, 0.0, 0.25, 0.6]))
         root, poly = gen.rand_tree(rng, L - ist, nops=int(rng.integers(1, 4)), pleaf=float(rng.choice([0.1, 0.3, 0.5])) if not long_ else 0.4,
-                                   maxch=int(rng.integers(1, 4)) if not long_ else 2, pzero=pz, pool=pool, charges=charged, root_q=(0 if ist == 0 else None))
+                                   maxch=int(rng.integers(1, 4)) if not long_ else 2, pzero=pz, pool=pool, charges=charged, root_q=(0 if ist == 0 else None),
+                                   shared=([] if (idx % 4 == 2 and not charged) else None))      # every fourth list: subtree OBJECTS reused inside a tree, also at different depths
         zeros = zeros or pz > 0
         t = ptn.OpTree(root, ist)
         trees.append(t)
